@@ -9,7 +9,7 @@ THE __dict__ LOOPS.  `for attr in self.__dict__`, `for attr, value in metabolite
 the attribute NAMES of the object.  ATTRS[cls] is derived MECHANICALLY at load time, on every run, from the real source (`ast` over
 $VERIF_REPO/src/cobra/core: the `self.<name> = ...` assignments of the __init__ methods along the base chain Object / Species / ...,
 minus the names the classes define as properties: `kind`, `tolerance` go through a setter and are no instance attributes); the lists
-agree with `vars(cls())` of the running library (checked by hand, 5 classes).  A name without a declared kind / specification class
+are cross-checked at load time against `vars(cls(...))` of a default-constructed instance of the running library (5 classes).  A name without a declared kind / specification class
 stops the module from loading (a new attribute in the source has to be classified).  The `getattr` hook gives `obj.__dict__` the
 meaning RECORD OVER EXACTLY THESE NAMES (value of a name = the attribute of a materialised object / the heap field of a symbolic
 one), so that the loops unroll entry by entry (pyvc.loops.unroll_record); `obj.__dict__[name]` reads the record, `obj.__dict__[name]
@@ -103,6 +103,10 @@ MUTANTS (scratch copy of /repo/src, cobra/core/model.py; every one is NOT discha
   (M1 - M15 were run against the version with ASSUMED summaries of update_genes_from_gpr / add_members, M1, M6, M16 - M18 again with the
   proved contracts applied; with them M1 additionally leaves the case undecided: the applied contract then has two outcomes.
   M2 also through tools/mutate_and_run.sh: loop#1/inv-preserve.21 unknown.)
+  M19 `self._compartments = dict(self._compartments)` inserted (an equal but different dictionary in the ORIGINAL) -> exit post
+      (identity of the original's attributes)
+  M20 `self.tags = {}` added to Metabolite.__init__ (a new instance attribute) -> the module refuses to load: "attribute
+      Metabolite.tags (derived from the source) has no declared kind: classify it" (the whole property reports a checker error)
   (removing `"_genes"` / `"_reaction"` from a do_not_copy_by_ref set stores a set-valued field by reference: the case is UNDECIDED
   (Unsupported: aliasing is outside the by-value model), never proved)
 """
@@ -191,6 +195,20 @@ def instance_attrs(cls):
 
 
 ATTRS = {c: instance_attrs(c) for c in ("Model", "Metabolite", "Gene", "Reaction", "Group")}
+
+
+def _cross_check():
+    """the derived lists against the instance dictionary of a default-constructed object of the RUNNING library (the arguments the
+    function under contract itself uses: Metabolite(), Gene(None), Reaction(), Group(<id>), Model())"""
+    from cobra.core import Gene, Group, Metabolite, Model, Reaction
+    for cls, args in ((Model, ()), (Metabolite, ()), (Gene, (None,)), (Reaction, ()), (Group, ("g",))):
+        have = set(vars(cls(*args)))
+        if have != set(ATTRS[cls.__name__]):
+            raise RuntimeError(f"c12_model_copy: attributes of {cls.__name__} derived from the source {sorted(ATTRS[cls.__name__])} differ "
+                               f"from those of a default-constructed instance {sorted(have)}")
+
+
+_cross_check()
 
 # kinds of the attributes that no other contract module has declared: an opaque reference (identity = the value held)
 for _n, _k in {"notes": "ref:dict", "_annotation": "ref:dict", "formula": "ref:Any", "charge": "ref:Any", "_bound": "ref:Any",
